@@ -440,6 +440,20 @@ static void init_xmodels() {
                                                    "(a?,b?)", "(a*,b)", "(a,a)", "(a?)*"};
         if (keep.count(m.spec)) XMODELS.push_back(m);
     }
+    // non-deterministic models whose subset construction needs more DFA states than the builder's initial guess of 4 x (leaves + 1), so that its state
+    // tables are re-allocated while states are already marked: "b, or anything whose (K+1)-th child from the end is a" for K = 5, 6, also optional / repeated
+    for (int K : {5, 6}) for (int wrap = 0; wrap < 3; wrap++) {
+        auto leaf = [](int n) { CS l; l.kind = 0; l.name = n; return l; };
+        CS ab; ab.kind = 2; ab.kids = {leaf(0), leaf(1)};
+        CS abStar = ab; abStar.suf = 2;
+        CS seq; seq.kind = 1; seq.kids = {abStar, leaf(0)};
+        for (int i = 0; i < K; i++) seq.kids.push_back(ab);
+        CS top; top.kind = 2; top.kids = {leaf(1), seq};
+        top.suf = wrap == 0 ? 0 : wrap == 1 ? 1 : 3;
+        Model m; m.kind = 0; m.ast = top; render(top, m.spec);
+        if (m.spec.empty() || m.spec[0] != '(') m.spec = "(" + m.spec + ")";
+        XMODELS.push_back(m);
+    }
     MODELS.swap(save);
 }
 static void run_cmx(uint64_t idx, Ctx& c) {
